@@ -209,6 +209,15 @@ Definition run_stress (a : sx) : sx :=
   | _ => sx_err "stress"
   end.
 
+(* c11.multi (reuse_key_buffer (session ...)): several connections made one after
+   the other by one process, possibly to different servers -> the c11.session
+   outcome of each; every connection is a handshake of its own *)
+Definition run_multi (a : sx) : sx :=
+  match a with
+  | SL [SB _; SL sess] => SL (map run_session sess)
+  | _ => sx_err "multi"
+  end.
+
 (* c11.magic payload -> Packet.MagicType *)
 Definition run_magic (a : sx) : sx :=
   match a with
@@ -243,7 +252,8 @@ Definition run_conn (a : sx) : sx :=
           SL (map (fun s => SL (snd s)) parsed);
           SN 1 (* Status() = Connected at the end *);
           (* a ping was answered: AverageRoundTrip() > 0 (one long session only) *)
-          if Nat.eqb (List.length parsed) 1 && (6000 <=? total)%N then SB true else SA "na"]
+          (if Nat.eqb (List.length parsed) 1 && (6000 <=? total)%N then SB true else SA "na");
+          SB true (* the ephemeral public keys of the handshakes are pairwise different *)]
   | _ => sx_err "conn"
   end.
 
@@ -258,4 +268,5 @@ Definition run (name : string) (a : sx) : sx :=
   else if is "c11.stress" then run_stress a
   else if is "c11.conn" then run_conn a
   else if is "c11.magic" then run_magic a
+  else if is "c11.multi" then run_multi a
   else sx_err "unknown case kind".
